@@ -9,6 +9,7 @@ from __future__ import annotations
 import asyncio
 import warnings
 
+import random
 from typing import Any
 
 from . import common
@@ -41,12 +42,17 @@ class UnprintableUserErr(UserErr):
         raise RuntimeError("this exception cannot be printed")
 
 
+def _helper_two_args(a: Any, b: Any) -> Any:
+    return (a, b)
+
+
 class Env:
     """Instrumentation shared by the generated functions of one case."""
 
     def __init__(self) -> None:
         self.log: list[tuple[str, dict]] = []
         self.errs: dict[str, UserErr] = {}
+        self.causes: dict[str, BaseException] = {}
         self.park = None  # async hook: `await park(fnid)` inside async bodies
         self.inflight = 0
         self.max_inflight = 0
@@ -57,9 +63,24 @@ class Env:
         self.late_renames = False
         self.exercise_intermediates = True
         self.bases: dict[int, Any] = {}
+        self.reseed: int | None = None       # user code that re-seeds the GLOBAL random generator inside every node body ("reproducible sampling")
         self.trace: list | None = None       # start/finish trace shared with the controllable loop (sync bodies record themselves)
 
     def err(self, tag: str) -> UserErr:
+        if tag not in self.errs and tag.startswith("T"):
+            # an ordinary bug inside the node body: a helper called with an argument missing — a builtin TypeError whose message talks of
+            # "positional argument", exactly what a mis-called NODE function would produce
+            try:
+                _helper_two_args(1)  # type: ignore[call-arg]
+            except TypeError as e:
+                e.__traceback__ = None
+                self.errs[tag] = e  # type: ignore[assignment]
+        if tag not in self.errs and tag.startswith("C"):
+            # `raise High(...) from low`: the exception carries an explicit cause, which belongs to it wherever it surfaces
+            e2 = UserErr(tag)
+            e2.__cause__ = UserErr("cause-of:" + tag)
+            self.causes[tag] = e2.__cause__
+            self.errs[tag] = e2
         if tag not in self.errs:
             self.errs[tag] = FalsyUserErr(tag) if tag.startswith("Z") else (UnprintableUserErr(tag) if tag.startswith("S") else UserErr(tag))
         return self.errs[tag]
@@ -102,8 +123,31 @@ class Plain:
         return (Plain, (self.n,))
 
 
+class LazyBox:
+    """A VALUE that happens to be awaitable (a lazy handle, a future-like result object): a plain function returning it produced this
+    object, not what awaiting it would give."""
+
+    def __init__(self, v: Any) -> None:
+        self.v = v
+
+    def __await__(self) -> Any:
+        return self.v
+        yield  # pragma: no cover - makes __await__ a generator function
+
+    def __eq__(self, other: Any) -> bool:
+        return type(other) is LazyBox and other.v == self.v
+
+    def __hash__(self) -> int:
+        return hash(("LazyBox", self.v))
+
+    def __repr__(self) -> str:
+        return f"LazyBox({self.v!r})"
+
+
 def enc_val(v: Any) -> Any:
     """Python value -> canonical JSON value encoding (the inverse of py_val)."""
+    if type(v) is LazyBox:
+        return {"box": enc_val(v.v)}
     if v is None or isinstance(v, (bool, int, str)):
         return v
     if v is _EMIT_SENTINEL:
@@ -202,6 +246,8 @@ def _body_lines(body: dict, params: list[str], env_name: str = "_E") -> list[str
         # a GENERATOR function (sync or async, as the node is): the node's value is the list of what it yields; its body runs while
         # the runner drains it (Python side only)
         return [f"yield ({body['t']!r}, {j}) + {tup}" for j in range(int(body.get("k", 2)))]
+    if b == "lazy":
+        return [f"return _LazyBox(({body['t']!r},) + {tup})"]       # a plain function whose VALUE is an awaitable object (Python side only)
     if b == "genexp":
         return [f"return (_i for _i in range({int(body['k'])}))"]       # a plain function returning a generator OBJECT
     if b == "strAttr":
@@ -253,6 +299,7 @@ def make_function(spec: dict, fnid: str, env: Env, *, is_async: bool) -> Any:
     fname = "_node_fn"      # the node's own name may be an illegal identifier in flaw-injection cases
     lines = [f"{'async ' if is_async else ''}def {fname}({', '.join(sig_parts)}):"]
     lines.append(f"    _E.log.append(({fnid!r}, {kw}))")
+    lines.append("    if _E.reseed is not None: _random.seed(_E.reseed)")
     if is_async:
         lines.append("    _E.inflight += 1")
         lines.append("    _E.max_inflight = max(_E.max_inflight, _E.inflight)")
@@ -271,7 +318,7 @@ def make_function(spec: dict, fnid: str, env: Env, *, is_async: bool) -> Any:
         lines.append("    finally:")
         lines.append(f"        if _E.trace is not None: _E.trace.append(('finish', {fnid!r}))")
         lines.append("        _E.inflight -= 1")
-    glob = {"_E": env, "_DEF": defaults, "_V": py_val, "_D": py_dec}
+    glob = {"_E": env, "_DEF": defaults, "_V": py_val, "_D": py_dec, "_LazyBox": LazyBox, "_random": random}
     if spec["body"]["b"] == "tableKept":
         glob["_KEPT"] = []
     if spec["body"]["b"] == "handlerDict":
@@ -404,6 +451,12 @@ def build_node(spec: dict, gi: int, graphs: list[Any], env: Env, *, async_bodies
             emit=emits,
             wait_for=wait_for,
         )
+        if spec.get("renameEmits") and emits:
+            # the node is DECLARED with other signal names and renamed (with_outputs) to the names the program uses: the same node as one
+            # declared with those names
+            first = FunctionNode(func, name=spec["name"], output_name=_tuple_or_none(spec.get("dataOuts", [])), rename_inputs=in_ren, cache=spec.get("cache", False),
+                                 hide=bool(spec.get("hide", False)), emit=tuple(f"{e}_declared" for e in spec["emits"]), wait_for=wait_for)
+            node = first.with_outputs({f"{e}_declared": e for e in spec["emits"]})
         env.nodes[fnid] = node
         return node
     if kind == "route":
